@@ -223,9 +223,52 @@ fn fpmap(v: &Value) -> reconcile::FpMap {
     v.as_array().unwrap().iter().map(|e| (PathBuf::from(e[0].as_str().unwrap()), fp(&e[1]).unwrap())).collect()
 }
 
+/// definition of the digest in 128-bit arithmetic (independent of copia's code)
+fn def_digest(w: &[u8]) -> u32 {
+    let n = w.len() as u128;
+    let mut a: u128 = 0;
+    let mut b: u128 = 0;
+    for (i, &x) in w.iter().enumerate() {
+        a += x as u128;
+        b += (n - i as u128) * x as u128;
+    }
+    (((b % 65521) as u32) << 16) | (a % 65521) as u32
+}
+
+/// slide a window of n over data, comparing the rolling digest with the definition at every step
+fn slide_check(case: &Value) -> Value {
+    let ty = case["ty"].as_str().unwrap();
+    let data = bytes_of(&case["data"]);
+    let n = case["n"].as_u64().unwrap() as usize;
+    let mut r32 = RollingChecksum::new(&data[..n]);
+    let mut r64 = FastRollingChecksum::new(&data[..n]);
+    // incremental definition (exact, u128) to keep the check O(len)
+    let mut a: u128 = data[..n].iter().map(|&x| x as u128).sum();
+    let mut b: u128 = data[..n].iter().enumerate().map(|(i, &x)| (n - i) as u128 * x as u128).sum();
+    let dig = |a: u128, b: u128| (((b % 65521) as u32) << 16) | (a % 65521) as u32;
+    if def_digest(&data[..n]) != dig(a, b) {
+        return json!({"error": "oracle self-check failed"});
+    }
+    let first = if ty == "rolling" { r32.digest() } else { r64.digest() };
+    if first != dig(a, b) {
+        return json!({"mismatch_at": 0, "got": first, "want": dig(a, b)});
+    }
+    for i in 0..data.len() - n {
+        let (o, x) = (data[i], data[i + n]);
+        a = a - o as u128 + x as u128;
+        b = b - (n as u128) * o as u128 + a;
+        let got = if ty == "rolling" { r32.roll(o, x); r32.digest() } else { r64.roll(o, x); r64.digest() };
+        if got != dig(a, b) {
+            return json!({"mismatch_at": i + 1, "got": got, "want": dig(a, b)});
+        }
+    }
+    json!({"mismatch_at": Value::Null, "steps": data.len() - n})
+}
+
 fn run_case(case: &Value) -> Value {
     match case["fn"].as_str().unwrap_or("") {
         "checksum" => checksum(case),
+        "slide_check" => slide_check(case),
         "delta" => delta_case(case),
         "patch" => patch_case(case),
         "glob_match" => json!({"result": plan::glob_match(case["pat"].as_str().unwrap(), case["text"].as_str().unwrap())}),
